@@ -476,5 +476,6 @@ def _count(val: Any) -> int | None:
         return None
     try:
         return int(val)
-    except ValueError:
+    except (ValueError, TypeError, OverflowError):
+        # Not a number (a list, infinity, ...), like the translate tag's count.
         return None
